@@ -95,6 +95,7 @@ from .edge.base_edge import BaseEdge
 from .edge.edge_landmark import EdgeLandmark
 from .edge.edge_odometry import EdgeOdometry
 from .g2o_parameters import G2OParameterSE2Offset, G2OParameterSE3Offset
+from .pose.se3 import PoseSE3
 from .vertex import Vertex
 
 
@@ -530,6 +531,13 @@ class Graph(object):
             The path where the graph will be saved
 
         """
+        # 3-D landmark edges refer to their offset by ID, so the offset must be one of the parameters that will be written
+        for e in self._edges:
+            if isinstance(e, EdgeLandmark) and isinstance(e.offset, PoseSE3):
+                param = (self._g2o_params or {}).get(("PARAMS_SE3OFFSET", e.offset_id))
+                if param is None or not np.array_equal(param.value, e.offset):
+                    raise ValueError("The offset of a landmark edge is not one of the graph's PARAMS_SE3OFFSET parameters")
+
         with open(outfile, "w") as f:
             if self._g2o_params:
                 for g2o_param in self._g2o_params.values():
